@@ -337,6 +337,7 @@ func runToBytes(id int, m *desc.Msg, extra ...string) {
 	var err error
 	reser := false
 	viaTpl := false
+	firstOutput := ""
 	p := guarded(func() {
 		// every second message with groups is built the way an application builds entries from
 		// the group's own template (AsTemplate, setters, AddEntry); the wire image must be the same
@@ -352,9 +353,18 @@ func runToBytes(id int, m *desc.Msg, extra ...string) {
 		// multi-step use: a message already serialized once is changed through a setter and
 		// serialized again; the description (hence the model's input) follows the change
 		if err == nil && id%3 == 1 {
+			before := m.Clone()
+			first := b
 			if mutateAfterFirstSerialization(m, fm, id) {
 				reser = true
 				b, err = fm.ToBytes()
+				// the first output is still in the caller's hands (queued for writing, stored):
+				// it has to be the well-framed message it was
+				if err == nil && before.Bs != "" && before.Mt != "" {
+					if v := oracleC01(before, first); v != "ok" {
+						firstOutput = "fail: after the same message was changed and serialized again, the output of the first ToBytes no longer is a framed message: " + strings.TrimPrefix(v, "fail: ")
+					}
+				}
 			}
 		}
 	})
@@ -376,6 +386,9 @@ func runToBytes(id int, m *desc.Msg, extra ...string) {
 		rec.Impl = desc.Hex(b) + " " + desc.ProjMsg(fm)
 		if m.Bs != "" && m.Mt != "" {
 			rec.Oracle["C01"] = oracleC01(m, b)
+			if rec.Oracle["C01"] == "ok" && firstOutput != "" {
+				rec.Oracle["C01"] = firstOutput
+			}
 			rec.Oracle["C17"] = oracleC17(m, b)
 		} else {
 			rec.Oracle["C01"] = "skip: empty BeginString or MsgType"
@@ -521,6 +534,47 @@ func unmarshalCase(tm *desc.Msg, data []byte) (impl string, fm *fix.Message, mod
 	return "OK " + desc.ProjMsg(fm), fm, modesAgree
 }
 
+// roundTripVerdict serializes m, parses the bytes into the empty template and compares: "" when
+// the message came back as it was built.
+func roundTripVerdict(m *desc.Msg) string {
+	var b []byte
+	var err error
+	if p := guarded(func() { b, err = m.Build().ToBytes() }); p != "" || err != nil {
+		return "serialization failed"
+	}
+	_, fm, _ := unmarshalCase(m.TemplateMsg(), b)
+	if fm == nil {
+		return "parsing the serialized message failed"
+	}
+	r := valuesEqual(m.Header, fm.Header().Items(), "header")
+	if r == "" {
+		r = valuesEqual(m.Body, fm.Body(), "body")
+	}
+	if r == "" {
+		r = valuesEqual(m.Trailer, fm.Trailer().Items(), "trailer")
+	}
+	return r
+}
+
+// decoyVerdict is the metamorphic oracle of C18 for a message that did not come back: if the same
+// message parses back once the text that only looks like a tag is taken out -- '=' inside values,
+// fields whose tag number contains another template tag as decimal suffix or prefix -- then that
+// text changed how some other field or group was parsed.
+func decoyVerdict(m *desc.Msg, why string) string {
+	if t, ch := m.NoEqualsInValues(); ch && roundTripVerdict(t) == "" {
+		return "fail: the message does not parse back (" + why + "); the same message with every '=' inside a value replaced by ':' does: text inside a value changed how another field or group was parsed"
+	}
+	if t, ch := m.WithoutLookalikeFields(); ch && roundTripVerdict(t) == "" {
+		return "fail: the message does not parse back (" + why + "); the same message without the fields whose tag number has another template tag as decimal suffix or prefix does: such a tag changed how another field or group was parsed"
+	}
+	if t, ch := m.NoEqualsInValues(); ch {
+		if t2, ch2 := t.WithoutLookalikeFields(); ch2 && roundTripVerdict(t2) == "" {
+			return "fail: the message does not parse back (" + why + "); the same message without '=' inside values and without look-alike tag fields does"
+		}
+	}
+	return "ok"
+}
+
 // roundtrip: C02
 func runRoundTrip(id int, m *desc.Msg, extra ...string) {
 	rec := &Rec{ID: id, Mode: "roundtrip", Oracle: map[string]string{}}
@@ -539,9 +593,11 @@ func runRoundTrip(id int, m *desc.Msg, extra ...string) {
 	impl, fm, agree := unmarshalCase(tm, b)
 	rec.Impl = impl
 	rec.Size = len(b)
+	valueVerdict := ""
 	switch {
 	case fm == nil:
 		rec.Oracle["C02"] = "fail: parsing the serialized message returned " + impl
+		valueVerdict = "Unmarshal returned " + impl
 	default:
 		r := valuesEqual(m.Header, fm.Header().Items(), "header")
 		if r == "" {
@@ -550,6 +606,7 @@ func runRoundTrip(id int, m *desc.Msg, extra ...string) {
 		if r == "" {
 			r = valuesEqual(m.Trailer, fm.Trailer().Items(), "trailer")
 		}
+		valueVerdict = r
 		if r == "" {
 			var b2 []byte
 			p := guarded(func() { b2, err = fm.ToBytes() })
@@ -567,6 +624,11 @@ func runRoundTrip(id int, m *desc.Msg, extra ...string) {
 	}
 	if !agree {
 		rec.Oracle["C02"] = "fail: strict and non-strict modes disagree"
+	}
+	if valueVerdict == "" {
+		rec.Oracle["C18"] = "ok"
+	} else {
+		rec.Oracle["C18"] = decoyVerdict(m, valueVerdict)
 	}
 	tags, _ := shapeTags(m)
 	rec.Tags = append(append(tags, sizeTag(len(b))), extra...)
